@@ -1,15 +1,16 @@
 import XmpModel.FmtXm
 /-!
-# C19 — Impulse Tracker (IT) codec, sample mode
+# C19 — Impulse Tracker (IT) codec, sample mode and instrument mode
 
-* `It.write` : independent encoder from ITTECH.TXT: 192-byte header, offset tables, 80-byte `IMPS`
-  sample headers, packed patterns with the channel-mask / last-value compression (every choice of
-  re-sending the mask byte, of using "same as last" bits, of redundant instrument fields), 8/16-bit
-  signed or unsigned PCM, mono or stereo blocks.  The song is written in *sample mode* (header flag
-  bit 2 clear): one instrument per sample.
-* `It.read` mirrors `it_test`/`it_load`/`load_it_sample`/`load_it_pattern` (src/loaders/it_load.c)
-  for sample-mode files with uncompressed samples.  `none` = model silent (instrument mode, IT2.14/2.15
-  compressed samples, MIDI configuration block, short file, load error).
+* `It.write` : independent encoder from ITTECH.TXT: 192-byte header, offset tables, optional edit history and
+  MIDI configuration blocks, 80-byte `IMPS` sample headers, packed patterns with the channel-mask / last-value
+  compression (every choice of re-sending the mask byte, of using "same as last" bits, of redundant instrument
+  fields), 8/16-bit signed or unsigned PCM, mono or stereo blocks, plain or IT 2.14 / 2.15 compressed
+  (independent width-switching compressor).  *Sample mode* (header flag bit 2 clear): one instrument per sample;
+  *instrument mode*: 554-byte `IMPI` headers in the new (cmwt ≥ 0x200) or old format with 120-entry key tables.
+* `It.read` mirrors `it_test`/`it_load`/`load_it_sample`/`load_it_pattern`/`load_new_it_instrument`/
+  `load_old_it_instrument` (src/loaders/it_load.c) and `itsex.c` (namespace `Sex`).  `none` = model silent
+  (short file, ADPCM samples, undersized compressed samples, load error).
 -/
 namespace Xmp.Fmt.It
 open Xmp.Fmt
@@ -391,8 +392,8 @@ def FSMASK : Nat := F16BIT ||| FLOOP ||| FBIDIR ||| FSLOOP ||| FSBIDIR ||| FSTER
 
 structure Opts where
   cwt : Nat := 0x0214
-  cmwt : Nat := 0x0214
-  flags : Nat := 0x09                       -- stereo + linear slides; bits 2 (instrument mode) and 7.. (embedded MIDI configuration) are never written
+  cmwt : Nat := 0x0214                      -- instrument mode: `≥ 0x200` = new instrument format, below = old format
+  flags : Nat := 0x09                       -- stereo + linear slides; bit 2 comes from `insMode`; bits 7.. (embedded MIDI configuration) are never written
   gv : UInt8 := 128
   mv : UInt8 := 48
   signed : Nat → Bool := fun _ => true      -- per sample: convert bit 0
@@ -403,16 +404,35 @@ structure Opts where
   cell : Nat → CellOpt := fun _ => {}
   chpan : Nat → UInt8 := fun _ => 32
   chvol : Nat → UInt8 := fun _ => 64
+  -- instrument mode (header flag bit 2): `IMPI` instrument headers with key maps; the sample headers then carry
+  -- their own name, default volume and (optional) default pan
+  insMode : Bool := false
+  smpVol : Nat → Nat := fun _ => 64             -- default volume of sample `i`
+  smpPan : Nat → Option Nat := fun _ => none    -- default pan of sample `i` (`some p` = bit 7 set, pan `p`)
+  insPan : Nat → Option Nat := fun _ => none    -- default pan of instrument `i` (new format; `none` = bit 7 set = don't use)
+  keyOff : Nat → Nat → Bool := fun _ _ => false -- instrument `i`, key `j` has no sample
+  keyNote : Nat → Nat → UInt8 := fun _ j => u8 j -- note byte of the key table (transposition, not observed)
+  envNodes : Nat → Nat := fun _ => 0            -- old format: envelope nodes before the 0xff terminator (< 25)
+  filler : Nat → UInt8 := fun _ => 0            -- every other byte of an instrument header (envelopes, NNA, filter, MIDI …)
+  -- blocks between the offset tables and the first header: they are skipped / read by the loader but never observed
+  history : Option Nat := none                  -- edit history with `n` 8-byte entries (header `special` bit 1)
+  midi : Nat := 0                               -- embedded MIDI configuration (4896 bytes): 0 = none, 1 = `special` bit 3,
+                                                -- 2 = header flag bit 7, 3 = both
 
-def encSmpHdr (x : Ins) (m : Smp) (signed : Bool) (comp : Nat) (c5 ptr : Nat) : Bytes :=
-  let sub : Sub := x.subs.headD { sid := 0, vol := 0, pan := 0, xpo := 0, fin := 0 }
+/-- 80-byte `IMPS` header with explicit name / default volume / default-pan byte -/
+def encSmpHdrG (name : Bytes) (vol dfp : Nat) (m : Smp) (signed : Bool) (comp : Nat) (c5 ptr : Nat) : Bytes :=
   let fl := (if m.len ≠ 0 then 1 else 0) + (if m.flg &&& F16BIT ≠ 0 then 2 else 0) + (if m.flg &&& FSTEREO ≠ 0 then 4 else 0) +
             (if comp ≠ 0 ∧ m.len > 1 then 8 else 0) +
             (if m.flg &&& FLOOP ≠ 0 then 0x10 else 0) + (if m.flg &&& FSLOOP ≠ 0 then 0x20 else 0) +
             (if m.flg &&& FBIDIR ≠ 0 then 0x40 else 0) + (if m.flg &&& FSBIDIR ≠ 0 then 0x80 else 0)
-  str "IMPS" ++ List.replicate 12 0 ++ [0, 64, u8 fl, u8 sub.vol] ++ padTo 25 x.name ++ [0] ++
-  [u8 ((if signed then 1 else 0) + (if comp = 2 ∧ m.len > 1 then 4 else 0)), u8 (0x80 + sub.pan.toNat / 4)] ++ le32 m.len ++ le32 m.lps ++ le32 m.lpe ++ le32 c5 ++
+  str "IMPS" ++ List.replicate 12 0 ++ [0, 64, u8 fl, u8 vol] ++ padTo 25 name ++ [0] ++
+  [u8 ((if signed then 1 else 0) + (if comp = 2 ∧ m.len > 1 then 4 else 0)), u8 dfp] ++ le32 m.len ++ le32 m.lps ++ le32 m.lpe ++ le32 c5 ++
   le32 m.sus ++ le32 m.sue ++ le32 ptr ++ [0, 0, 0, 0]
+
+/-- sample mode: name, volume and pan come from the sample's instrument -/
+def encSmpHdr (x : Ins) (m : Smp) (signed : Bool) (comp : Nat) (c5 ptr : Nat) : Bytes :=
+  let sub : Sub := x.subs.headD { sid := 0, vol := 0, pan := 0, xpo := 0, fin := 0 }
+  encSmpHdrG x.name sub.vol (0x80 + sub.pan.toNat / 4) m signed comp c5 ptr
 
 /-- `fix_name` + `libxmp_copy_adjust(…, 25)` + `libxmp_adjust_string` -/
 def fixName (b : Bytes) : Bytes :=
@@ -451,39 +471,131 @@ def susFix (m : Smp) : Smp :=
   if m.sus ≥ m.len ∨ m.sus ≥ sue then { m with sus := 0, sue := 0, flg := m.flg &&& (0xffff - (FSLOOP ||| FSBIDIR)) }
   else { m with sue := sue }
 
+/-- `load_it_sample` after the magic test: flags, loops, sustain loop and PCM (name left empty);
+`none` = not modelled / load error -/
+def loadSmpCore (file : Bytes) (h : SmpHdr) : Option Smp :=
+  if h.len ≥ 0x80000000 ∨ h.lps ≥ 0x80000000 ∨ h.lpe ≥ 0x80000000 ∨ h.sus ≥ 0x80000000 ∨ h.sue ≥ 0x80000000 then none else
+  let flg := hdrFlg h
+  let (sus, sue) := if h.flags / 32 % 2 = 1 then (h.sus, h.sue) else (0, 0)
+  let m0 : Smp := { name := [], len := h.len, lps := h.lps, lpe := h.lpe, flg := flg, sus := sus, sue := sue, pcm := [] }
+  if h.flags % 2 = 1 ∧ h.len > 1 then
+    if h.len > 0x10000000 then none
+    else if h.cvt = 0xff then none                   -- ADPCM: not modelled
+    else
+      let flg1 := if h.lpe > h.len ∨ h.lps ≥ h.lpe then flg &&& (0xffff - FLOOP) else flg
+      let n := h.len * frameBytes flg
+      let fin (raw : Bytes) : Option Smp :=
+        let (lps, lpe, flg2) := loopSanity h.len h.lps h.lpe flg1
+        let flg3 := if flg2 &&& FSBIDIR ≠ 0 ∧ flg2 &&& FSLOOP = 0 then flg2 &&& (0xffff - FSBIDIR) else flg2
+        some (susFix { m0 with lps := lps, lpe := lpe, flg := flg3,
+                               pcm := S3m.loadPcm (h.cvt % 2 = 0) flg h.len raw })
+      if h.flags / 8 % 2 = 1 then
+        -- compressed: lower bound test of the loader (resizing short samples is not modelled)
+        if h.ptr ≥ file.length ∨ file.length - h.ptr < h.len * (if flg &&& FSTEREO ≠ 0 then 2 else 1) / 8 then none
+        else match Sex.decompress flg h.len (h.cvt / 4 % 2 = 1) (file.drop h.ptr) with
+          | none => none                             -- stream error: the loader keeps a partial sample, not modelled
+          | some raw => fin raw
+      else if h.ptr + n > file.length then none           -- truncated sample: not modelled
+      else fin ((file.drop h.ptr).take n)
+  else some (susFix m0)
+
+/-- sample mode: the instrument made for sample `i` -/
+def smpModeIns (i : Nat) (h : SmpHdr) : Ins :=
+  let pan : Int := if h.dfp ≥ 0x80 then ((h.dfp % 128 * 4 : Nat) : Int) else -1
+  { name := fixName h.name, subs := if h.len ≠ 0 then [{ sid := i, vol := h.vol, pan := pan, xpo := 0, fin := 0 }] else [] }
+
+def emptySmp : Smp := { name := [], len := 0, lps := 0, lpe := 0, flg := 0, pcm := [] }
+
 /-- sample-mode instrument + sample from one `IMPS` header; `none` = not modelled / load error -/
 def loadSmp (file : Bytes) (i : Nat) (b : Bytes) : Option (Ins × Smp) :=
   let h := decSmpHdr b
-  if h.magic ≠ str "IMPS" then
-    some ({ name := [], subs := [] }, { name := [], len := 0, lps := 0, lpe := 0, flg := 0, pcm := [] })
+  if h.magic ≠ str "IMPS" then some ({ name := [], subs := [] }, emptySmp)
+  else (loadSmpCore file h).map fun m => (smpModeIns i h, m)
+
+/-! ## instrument mode: `IMPI` headers (`load_new_it_instrument` / `load_old_it_instrument`) -/
+
+/-- the `inst_map` construction of both instrument loaders: the sample numbers of the key table (0 or > 120 =
+no sample, coded `noSmp` in the key map) are numbered in order of first appearance.
+Returns (sample ids of the sub-instruments, sub-instrument index per key). -/
+def keyScan (noSmp : Nat) : List Nat → List Nat → List Nat × List Nat
+  | [], seen => (seen, [])
+  | c :: cs, seen =>
+    if c = 0 ∨ c > 120 then
+      let (s, m) := keyScan noSmp cs seen
+      (s, noSmp :: m)
+    else
+      let idx := seen.idxOf (c - 1)
+      let (s, m) := keyScan noSmp cs (if idx < seen.length then seen else seen ++ [c - 1])
+      (s, idx :: m)
+
+/-- old format: the volume envelope node table must contain its 0xff terminator within 25 nodes -/
+def enodeOk (e : Bytes) : Bool := (List.range 25).any fun k => e.getD (2 * k) 0 == 0xff
+
+structure InsHdr where
+  name : Bytes          -- after `fix_name` / `copy_adjust` / `adjust_string`
+  sids : List Nat       -- sample id of each sub-instrument
+  keymap : List Nat     -- 121 entries
+  pan : Int             -- instrument default pan, -1 = none
+  deriving Repr, Inhabited
+
+/-- one instrument header at offset `pp`; `none` = short file, bad magic, unterminated old envelope -/
+def readInsHdr (isNew : Bool) (file : Bytes) (pp : Nat) : Option InsHdr :=
+  let need := if isNew then 550 else 554
+  let b := (file.drop pp).take need
+  if b.length < need then none
+  else if b.take 4 ≠ str "IMPI" then none
+  else if !isNew && !(enodeOk ((b.drop 504).take 50)) then none
   else
-    if h.len ≥ 0x80000000 ∨ h.lps ≥ 0x80000000 ∨ h.lpe ≥ 0x80000000 ∨ h.sus ≥ 0x80000000 ∨ h.sue ≥ 0x80000000 then none else
-    let flg := hdrFlg h
-    let pan : Int := if h.dfp ≥ 0x80 then ((h.dfp % 128 * 4 : Nat) : Int) else -1
-    let ins : Ins := { name := fixName h.name,
-                       subs := if h.len ≠ 0 then [{ sid := i, vol := h.vol, pan := pan, xpo := 0, fin := 0 }] else [] }
-    let (sus, sue) := if h.flags / 32 % 2 = 1 then (h.sus, h.sue) else (0, 0)
-    let m0 : Smp := { name := [], len := h.len, lps := h.lps, lpe := h.lpe, flg := flg, sus := sus, sue := sue, pcm := [] }
-    if h.flags % 2 = 1 ∧ h.len > 1 then
-      if h.len > 0x10000000 then none
-      else if h.cvt = 0xff then none                   -- ADPCM: not modelled
-      else
-        let flg1 := if h.lpe > h.len ∨ h.lps ≥ h.lpe then flg &&& (0xffff - FLOOP) else flg
-        let n := h.len * frameBytes flg
-        let fin (raw : Bytes) : Option (Ins × Smp) :=
-          let (lps, lpe, flg2) := loopSanity h.len h.lps h.lpe flg1
-          let flg3 := if flg2 &&& FSBIDIR ≠ 0 ∧ flg2 &&& FSLOOP = 0 then flg2 &&& (0xffff - FSBIDIR) else flg2
-          some (ins, susFix { m0 with lps := lps, lpe := lpe, flg := flg3,
-                                      pcm := S3m.loadPcm (h.cvt % 2 = 0) flg h.len raw })
-        if h.flags / 8 % 2 = 1 then
-          -- compressed: lower bound test of the loader (resizing short samples is not modelled)
-          if h.ptr ≥ file.length ∨ file.length - h.ptr < h.len * (if flg &&& FSTEREO ≠ 0 then 2 else 1) / 8 then none
-          else match Sex.decompress flg h.len (h.cvt / 4 % 2 = 1) (file.drop h.ptr) with
-            | none => none                             -- stream error: the loader keeps a partial sample, not modelled
-            | some raw => fin raw
-        else if h.ptr + n > file.length then none           -- truncated sample: not modelled
-        else fin ((file.drop h.ptr).take n)
-    else some (ins, susFix m0)
+    let keys := (List.range 120).map fun j => (b.getD (64 + 2 * j + 1) 0).toNat
+    let (sids, km) := keyScan (if isNew then 0xff else 0) keys []
+    let dfp := (b.getD 25 0).toNat
+    some { name := fixName ((b.drop 32).take 26), sids := sids, keymap := km ++ [0],
+           pan := if isNew ∧ dfp < 0x80 then ((dfp * 4 : Nat) : Int) else -1 }
+
+def readInsHdrs (isNew : Bool) (file : Bytes) : List Nat → Option (List InsHdr)
+  | [] => some []
+  | pp :: rest =>
+    match readInsHdr isNew file pp with
+    | none => none
+    | some h => (readInsHdrs isNew file rest).map (h :: ·)
+
+/-- instrument mode: sample `i` and what it hands to the sub-instruments that use it: `(volume, default-pan byte)`;
+`none` for a header without the `IMPS` magic (the loader skips it) -/
+def readSmpsI (file : Bytes) : List Nat → Option (List (Option (Nat × Nat) × Smp))
+  | [] => some []
+  | pp :: rest =>
+    let b := (file.drop pp).take 80
+    if b.length < 80 then none
+    else
+      let h := decSmpHdr b
+      if h.magic ≠ str "IMPS" then (readSmpsI file rest).map ((none, emptySmp) :: ·)
+      else match loadSmpCore file h with
+        | none => none
+        | some m => (readSmpsI file rest).map ((some (h.vol, h.dfp), { m with name := fixName h.name }) :: ·)
+
+/-- the instrument as `load_it_sample` leaves it: every sub-instrument takes volume (and pan, if the sample has
+one) from its sample -/
+def mkIns (infos : List (Option (Nat × Nat))) (h : InsHdr) : Ins :=
+  { name := h.name, keymap := h.keymap,
+    subs := h.sids.map fun sid =>
+      match infos.getD sid none with
+      | some (vol, dfp) => { sid := sid, vol := vol, pan := if dfp ≥ 0x80 then ((dfp % 128 * 4 : Nat) : Int) else h.pan, xpo := 0, fin := 0 }
+      | none => { sid := sid, vol := 0, pan := h.pan, xpo := 0, fin := 0 } }
+
+/-- writer: the 554-byte instrument header of instrument `i` (both formats share the positions the loader
+observes: magic, name at 32, key table at 64; the default-pan byte at 25 exists in the new format only;
+the old format's envelope node table at 504 gets its terminator) -/
+def encIns (o : Opts) (isNew : Bool) (smpNo : Nat → Nat) (x : Ins) (i : Nat) : Bytes :=
+  let f (k : Nat) : UInt8 := o.filler (1000 * i + k)
+  let dfp : UInt8 := if isNew then (match o.insPan i with | some p => u8 p | none => u8 (0x80 + (f 25).toNat % 128)) else f 25
+  let keys : Bytes := (List.range 120).flatMap fun j =>
+    [o.keyNote i j, u8 (if o.keyOff i j then 0 else smpNo j)]
+  let n := o.envNodes i
+  let enode : Bytes := (List.range 50).map fun k =>
+    if k = 2 * n then 0xff else if k % 2 = 0 ∧ k < 2 * n then u8 ((f (504 + k)).toNat % 255) else f (504 + k)
+  str "IMPI" ++ (List.range 21).map (fun k => f (4 + k)) ++ [dfp] ++ (List.range 6).map (fun k => f (26 + k)) ++
+  padTo 25 x.name ++ [0] ++ (List.range 6).map (fun k => f (58 + k)) ++ keys ++
+  (List.range 200).map (fun k => f (304 + k)) ++ (if isNew then (List.range 50).map (fun k => f (504 + k)) else enode)
 
 /-! ## file level -/
 
@@ -494,35 +606,99 @@ def offsets (base : Nat) : List Bytes → List Nat
   | [] => []
   | b :: bs => base :: offsets (base + b.length) bs
 
-def write (s : Module) (o : Opts) : Bytes :=
-  let nord := s.orders.length
-  let nsmp := s.smps.length
-  let npat := s.pats.length
-  let hdr : Bytes :=
-    str "IMPM" ++ padTo 26 s.name ++ [4, 16] ++ le16 nord ++ le16 0 ++ le16 nsmp ++ le16 npat ++
-    le16 o.cwt ++ le16 o.cmwt ++ le16 (o.flags % 128 / 8 * 8 + o.flags % 4) ++ le16 0 ++
+/-! ### layout of the written file
+
+192-byte header · order list · instrument offsets (instrument mode) · sample-header offsets · pattern offsets ·
+554-byte `IMPI` headers (instrument mode) · 80-byte `IMPS` headers · pattern blobs · sample blobs (no alignment). -/
+
+/-- per-cell options of pattern number `pi` whose first cell has global index `ci`: the first pattern
+declares the channel count by a (possibly field-less) entry for channel `chn-1` in row 0 -/
+def patOpt (chn : Nat) (o : Opts) (pi ci : Nat) : Nat → CellOpt :=
+  fun j => if pi = 0 ∧ j = ci + chn - 1 then { o.cell j with marker := true } else o.cell j
+
+/-- one stored pattern (8-byte header + packed data); `[]` = not stored (offset 0) -/
+def patBlob (chn : Nat) (o : Opts) (p : Pat) (pi ci : Nat) : Bytes :=
+  if pi ≠ 0 ∧ o.nullEmpty ∧ isEmptyPat p ∧ p.rows = 64 then [] else
+    let d := pack chn p (patOpt chn o pi ci) ci
+    le16 d.length ++ le16 p.rows ++ [0, 0, 0, 0] ++ d
+
+def patBlobs (chn : Nat) (o : Opts) : List Pat → Nat → Nat → List Bytes
+  | [], _, _ => []
+  | p :: ps, pi, ci => patBlob chn o p pi ci :: patBlobs chn o ps (pi + 1) (ci + p.cells.length)
+
+/-- offsets of consecutive pattern blobs starting at `base`; an empty blob gets offset 0 -/
+def patOffsOf (base : Nat) : List Bytes → List Nat
+  | [] => []
+  | b :: bs => (if b.isEmpty then 0 else base) :: patOffsOf (base + b.length) bs
+
+/-- stored bytes of sample number `i` -/
+def smpBlob (o : Opts) (m : Smp) (i : Nat) : Bytes :=
+  let raw := S3m.storePcm (!(o.signed i)) m.flg m.len m.pcm
+  if o.comp i ≠ 0 ∧ m.len > 1 then Sex.compress m.flg m.len (o.comp i = 2) (o.wsel i) raw else raw
+
+def smpBlobs (o : Opts) : List Smp → Nat → List Bytes
+  | [], _ => []
+  | m :: ms, i => smpBlob o m i :: smpBlobs o ms (i + 1)
+
+/-- sample mode: the `IMPS` headers of the slots `(x, m)` whose data lies at offset `off`; `i` = slot number -/
+def encSmpHdrs (o : Opts) : List Ins → List Smp → List Nat → Nat → Bytes
+  | x :: xs, m :: ms, off :: offs, i =>
+    encSmpHdr x m (o.signed i) (o.comp i) (o.c5spd i) off ++ encSmpHdrs o xs ms offs (i + 1)
+  | _, _, _, _ => []
+
+/-- the default-pan byte of sample `i` in instrument mode -/
+def smpDfp (o : Opts) (i : Nat) : Nat := match o.smpPan i with | some p => 0x80 + p | none => 0
+
+/-- instrument mode: the `IMPS` headers -/
+def encSmpHdrsI (o : Opts) : List Smp → List Nat → Nat → Bytes
+  | m :: ms, off :: offs, i =>
+    encSmpHdrG m.name (o.smpVol i) (smpDfp o i) m (o.signed i) (o.comp i) (o.c5spd i) off ++ encSmpHdrsI o ms offs (i + 1)
+  | _, _, _ => []
+
+/-- sample number (1-based) that key `j` of instrument `x` names -/
+def keySmp (x : Ins) (j : Nat) : Nat := ((x.subs.getD (x.keymap.getD j 0) default).sid + 1)
+
+def encInss (o : Opts) : List Ins → Nat → List Bytes
+  | [], _ => []
+  | x :: xs, i => encIns o (decide (o.cmwt ≥ 0x200)) (keySmp x) x i :: encInss o xs (i + 1)
+
+/-- number of `IMPI` headers in the file -/
+def nIns (s : Module) (o : Opts) : Nat := if o.insMode then s.ins.length else 0
+
+/-- edit history and MIDI configuration, as they follow the offset tables -/
+def extraBlock (o : Opts) : Bytes :=
+  (match o.history with
+   | some n => le16 n ++ (List.range (8 * n)).map (fun k => o.filler (500000 + k))
+   | none => []) ++
+  (if o.midi ≠ 0 then (List.range 4896).map (fun k => o.filler (600000 + k)) else [])
+
+def specialOf (o : Opts) : Nat := (if o.history.isSome then 2 else 0) + (if o.midi % 2 = 1 then 8 else 0)
+
+def fileHdr (s : Module) (o : Opts) : Bytes :=
+  str "IMPM" ++ padTo 26 s.name ++ [4, 16] ++ le16 s.orders.length ++ le16 (nIns s o) ++ le16 s.smps.length ++ le16 s.pats.length ++
+    le16 o.cwt ++ le16 o.cmwt ++
+    le16 (o.flags % 128 / 8 * 8 + o.flags % 4 + (if o.insMode then 4 else 0) + (if o.midi / 2 % 2 = 1 then 128 else 0)) ++
+    le16 (specialOf o) ++
     [o.gv, o.mv, u8 s.spd, u8 s.bpm, 128, 0] ++ le16 0 ++ le32 0 ++ le32 0 ++
     (List.range 64).map o.chpan ++ (List.range 64).map o.chvol
-  let tabEnd := 192 + nord + 4 * nsmp + 4 * npat
-  let hdrBase := tabEnd
-  let patBase := hdrBase + 80 * nsmp
-  let cellIdx : List Nat := (s.pats.foldl (fun (acc : List Nat × Nat) p => (acc.1 ++ [acc.2], acc.2 + p.cells.length)) ([], 0)).1
-  -- the first pattern declares the channel count: a (possibly field-less) entry for channel chn-1 in row 0
-  let patBlobs : List Bytes := ((s.pats.zip cellIdx).zipIdx).map fun ((p, ci), pi) =>
-    if pi ≠ 0 ∧ o.nullEmpty ∧ isEmptyPat p ∧ p.rows = 64 then [] else
-      let opt := fun j => if pi = 0 ∧ j = ci + s.chn - 1 then { o.cell j with marker := true } else o.cell j
-      let d := pack s.chn p opt ci
-      le16 d.length ++ le16 p.rows ++ [0, 0, 0, 0] ++ d
-  let patOffs := (offsets patBase patBlobs).zip patBlobs |>.map fun (off, b) => if b.isEmpty then 0 else off
-  let smpBase := patBase + (patBlobs.map (·.length)).sum
-  let smpBlobs : List Bytes := s.smps.zipIdx.map fun (m, i) =>
-    let raw := S3m.storePcm (!(o.signed i)) m.flg m.len m.pcm
-    if o.comp i ≠ 0 ∧ m.len > 1 then Sex.compress m.flg m.len (o.comp i = 2) (o.wsel i) raw else raw
-  let smpOffs := offsets smpBase smpBlobs
-  let hdrs : Bytes := (((s.ins.zip s.smps).zip smpOffs).zipIdx).flatMap fun (((x, m), off), i) =>
-    encSmpHdr x m (o.signed i) (o.comp i) (o.c5spd i) off
-  hdr ++ s.orders ++ (List.range nsmp).flatMap (fun i => le32 (hdrBase + 80 * i)) ++ patOffs.flatMap le32 ++
-  hdrs ++ patBlobs.flatten ++ smpBlobs.flatten
+
+/-- offset of the first `IMPI` header / first `IMPS` header / first pattern blob / first sample blob -/
+def insBase (s : Module) (o : Opts) : Nat :=
+  192 + s.orders.length + 4 * nIns s o + 4 * s.smps.length + 4 * s.pats.length + (extraBlock o).length
+def hdrBase (s : Module) (o : Opts) : Nat := insBase s o + 554 * nIns s o
+def patBase (s : Module) (o : Opts) : Nat := hdrBase s o + 80 * s.smps.length
+def smpBase (s : Module) (o : Opts) : Nat := patBase s o + ((patBlobs s.chn o s.pats 0 0).map (·.length)).sum
+
+def patOffs (s : Module) (o : Opts) : List Nat := patOffsOf (patBase s o) (patBlobs s.chn o s.pats 0 0)
+def smpOffs (s : Module) (o : Opts) : List Nat := offsets (smpBase s o) (smpBlobs o s.smps 0)
+
+def write (s : Module) (o : Opts) : Bytes :=
+  fileHdr s o ++ s.orders ++ (List.range (nIns s o)).flatMap (fun i => le32 (insBase s o + 554 * i)) ++
+  (List.range s.smps.length).flatMap (fun i => le32 (hdrBase s o + 80 * i)) ++
+  (patOffs s o).flatMap le32 ++ extraBlock o ++
+  (if o.insMode then (encInss o s.ins 0).flatten else []) ++
+  (if o.insMode then encSmpHdrsI o s.smps (smpOffs s o) 0 else encSmpHdrs o s.ins s.smps (smpOffs s o) 0) ++
+  (patBlobs s.chn o s.pats 0 0).flatten ++ (smpBlobs o s.smps 0).flatten
 
 def readSmps (file : Bytes) : List Nat → Nat → Option (List (Ins × Smp))
   | [], _ => some []
@@ -532,6 +708,15 @@ def readSmps (file : Bytes) : List Nat → Nat → Option (List (Ins × Smp))
     else match loadSmp file i b with
       | none => none
       | some r => (readSmps file rest (i + 1)).map (r :: ·)
+
+/-- instruments and samples of an instrument-mode file -/
+def readInsMode (file : Bytes) (cmwt : Nat) (ppIns ppSmp : List Nat) : Option (List Ins × List Smp) :=
+  match readInsHdrs (decide (cmwt ≥ 0x200)) file ppIns with
+  | none => none
+  | some hs =>
+    match readSmpsI file ppSmp with
+    | none => none
+    | some sl => some (hs.map (mkIns (sl.map (·.1))), sl.map (·.2))
 
 /-- pattern header at `pp`: `(rows, data)`; `none` when the block is cut short -/
 def patBlock (file : Bytes) (pp : Nat) : Option (Nat × Bytes) :=
@@ -550,21 +735,28 @@ def read (bs : Bytes) : Option Module := do
   let insnum := rd16le ((bs.drop 34).take 2)
   let smpnum := rd16le ((bs.drop 36).take 2)
   let patnum := rd16le ((bs.drop 38).take 2)
+  let cmwt := rd16le ((bs.drop 42).take 2)
   let flags := rd16le ((bs.drop 44).take 2)
   let special := rd16le ((bs.drop 46).take 2)
   if (bs.getD 48 0).toNat > 0x80 then none
   if insnum > 255 ∨ smpnum > 255 ∨ patnum > 255 then none
-  if flags / 4 % 2 = 1 then none                                 -- instrument mode: not modelled
-  if flags / 128 % 2 = 1 ∨ special / 8 % 2 = 1 then none         -- MIDI configuration block: not modelled
-  if special / 2 % 2 = 1 then none                               -- edit history: not modelled
   let olen := if ordnum > 256 then 256 else ordnum
   let tab := 192 + ordnum + 4 * insnum
   if tab + 4 * smpnum + 4 * patnum > bs.length then none
+  -- edit history (skipped) and embedded MIDI configuration (read, never observed) follow the tables: the load
+  -- fails when the history's length word or the 9 + 16 + 128 macros of 32 bytes are not in the file
+  let p0 := tab + 4 * smpnum + 4 * patnum
+  let p1 := if special / 2 % 2 = 1 then p0 + 2 + 8 * rd16le ((bs.drop p0).take 2) else p0
+  if special / 2 % 2 = 1 ∧ p0 + 2 > bs.length then none
+  if (flags / 128 % 2 = 1 ∨ special / 8 % 2 = 1) ∧ p1 + 4896 > bs.length then none
   let ords := (bs.drop 192).take olen
-  if !(S3m.startsAtPattern patnum ords) then none   -- `libxmp_scan_sequences` refuses such songs
+  if !(S3m.scanStarts patnum ords) then none   -- `libxmp_scan_sequences`: the scan from order 0 reaches no stored pattern
+  let ppIns := decodeN 4 rd32le insnum (bs.drop (192 + ordnum))
   let ppSmp := decodeN 4 rd32le smpnum (bs.drop tab)
   let ppPat := decodeN 4 rd32le patnum (bs.drop (tab + 4 * smpnum))
-  let sl ← readSmps bs ppSmp 0
+  -- instruments and samples: instrument mode (header flag bit 2) or one instrument per sample
+  let (ins, smps) ← (if flags / 4 % 2 = 1 then readInsMode bs cmwt ppIns ppSmp
+                     else (readSmps bs ppSmp 0).map fun sl => (sl.map (·.1), sl.map (·.2)))
   -- first pass: channel count; patterns with more than 1024 rows are dropped
   let blocks ← ppPat.mapM fun pp =>
     if pp = 0 then some none
@@ -580,10 +772,10 @@ def read (bs : Bytes) : Option Module := do
     | none => ({ rows := 64, cells := List.replicate (64 * chn) {} } : Pat)
     | some (rows, d) => { rows := rows, cells := (unpackData chn rows d).flatten }
   some { name := adjustString (cstr ((bs.drop 4).take 26)), chn := chn, orders := fixOrders patnum ords,
-         pats := pats, ins := sl.map (·.1), smps := sl.map (obsLoop ·.2),
+         pats := pats, ins := ins, smps := smps.map obsLoop,
          spd := fixSpd (bs.getD 50 0).toNat, bpm := fixBpm (bs.getD 51 0).toNat }
 
-/-! ## well-formed IT songs (sample mode) -/
+/-! ## well-formed IT songs -/
 
 def PatOk (chn : Nat) (p : Pat) : Prop :=
   1 ≤ p.rows ∧ p.rows ≤ 200 ∧ p.cells.length = p.rows * chn ∧ ∀ c ∈ p.cells, CellOk c
@@ -593,6 +785,17 @@ def SubsOk (i : Nat) : List Sub → Prop
   | [sub] => sub.sid = i ∧ sub.vol ≤ 64 ∧ 0 ≤ sub.pan ∧ sub.pan ≤ 256 ∧ sub.pan % 4 = 0 ∧ sub.xpo = 0 ∧ sub.fin = 0
   | _ => False
 instance (i : Nat) (l : List Sub) : Decidable (SubsOk i l) := by unfold SubsOk; split <;> infer_instance
+
+/-- the sample's own fields (both modes); the name is constrained by the mode -/
+def SmpOk (m : Smp) : Prop :=
+  m.flg &&& FSMASK = m.flg ∧
+  (m.flg &&& FBIDIR ≠ 0 → m.flg &&& FLOOP ≠ 0) ∧ (m.flg &&& FSBIDIR ≠ 0 → m.flg &&& FSLOOP ≠ 0) ∧
+  m.len ≤ 0x100000 ∧ m.len ≠ 1 ∧ m.pcm.length = m.len * frameBytes m.flg ∧
+  (if m.len = 0 then m.flg = 0 ∧ m.lps = 0 ∧ m.lpe = 0 ∧ m.sus = 0 ∧ m.sue = 0
+   else
+     (if m.flg &&& FLOOP ≠ 0 then m.lps < m.lpe ∧ m.lpe ≤ m.len else m.lps = 0 ∧ m.lpe = 0) ∧
+     (if m.flg &&& FSLOOP ≠ 0 then m.sus < m.sue ∧ m.sue ≤ m.len else m.sus = 0 ∧ m.sue = 0))
+instance (m : Smp) : Decidable (SmpOk m) := by unfold SmpOk; infer_instance
 
 def SlotOk (i : Nat) (x : Ins) (m : Smp) : Prop :=
   NameOk 25 x.name ∧ x.keymap = [] ∧ m.name = [] ∧ m.flg &&& FSMASK = m.flg ∧
@@ -618,13 +821,82 @@ instance : (i : Nat) → (xs : List Ins) → (ms : List Smp) → Decidable (Slot
   | _, [], _ :: _ => isFalse (by simp [SlotsOk])
   | _, _ :: _, [] => isFalse (by simp [SlotsOk])
 
-def WellFormed (s : Module) (o : Opts) : Prop :=
-  NameOk 25 s.name ∧ S3m.playable s.orders = true ∧ (1 ≤ s.chn ∧ s.chn ≤ 64) ∧
-  s.orders.length ≤ 256 ∧ (∀ x ∈ s.orders, x.toNat < s.pats.length ∨ x.toNat ≥ 0xfe) ∧
-  (1 ≤ s.pats.length ∧ s.pats.length ≤ 200) ∧ (∀ p ∈ s.pats, PatOk s.chn p) ∧
-  s.smps.length ≤ 99 ∧ SlotsOk 0 s.ins s.smps ∧ (1 ≤ s.spd ∧ s.spd ≤ 255) ∧ (32 ≤ s.bpm ∧ s.bpm ≤ 255) ∧
-  o.gv.toNat ≤ 128
+/-- the key map numbers the sub-instruments in order of first appearance: walking over the keys with `t`
+sub-instruments met so far, a key either has no sample (`noSmp`), or names one of the `t` known ones, or the next
+one; returns the number of sub-instruments met -/
+def keyOrder (noSmp : Nat) (off : Nat → Bool) : List Nat → Nat → Nat → Option Nat
+  | [], _, t => some t
+  | k :: ks, j, t =>
+    if off j then (if k = noSmp then keyOrder noSmp off ks (j + 1) t else none)
+    else if k < t then keyOrder noSmp off ks (j + 1) t
+    else if k = t then keyOrder noSmp off ks (j + 1) (t + 1)
+    else none
 
-instance (s : Module) (o : Opts) : Decidable (WellFormed s o) := by unfold WellFormed; infer_instance
+/-- the pan a sub-instrument of instrument `i` using sample `sid` ends up with -/
+def subPan (o : Opts) (isNew : Bool) (i sid : Nat) : Int :=
+  match o.smpPan sid with
+  | some p => ((p * 4 : Nat) : Int)
+  | none => if isNew then (match o.insPan i with | some q => ((q * 4 : Nat) : Int) | none => -1) else -1
+
+/-- instrument `i` in instrument mode -/
+def InsOkI (o : Opts) (nsmp i : Nat) (x : Ins) : Prop :=
+  let isNew := decide (o.cmwt ≥ 0x200)
+  NameOk 25 x.name ∧ x.keymap.length = 121 ∧ x.keymap.getD 120 0 = 0 ∧
+  keyOrder (if isNew then 0xff else 0) (o.keyOff i) (x.keymap.take 120) 0 0 = some x.subs.length ∧
+  (x.subs.map (·.sid)).Nodup ∧
+  (∀ sub ∈ x.subs, sub.sid < nsmp ∧ sub.sid < 120 ∧ sub.vol = o.smpVol sub.sid ∧ sub.pan = subPan o isNew i sub.sid ∧
+     sub.xpo = 0 ∧ sub.fin = 0) ∧
+  (match o.insPan i with | some q => q < 128 | none => True) ∧ o.envNodes i < 25
+
+instance (o : Opts) (nsmp i : Nat) (x : Ins) : Decidable (InsOkI o nsmp i x) := by
+  unfold InsOkI
+  cases o.insPan i <;> infer_instance
+
+def InssOkI (o : Opts) (nsmp : Nat) : Nat → List Ins → Prop
+  | _, [] => True
+  | i, x :: xs => InsOkI o nsmp i x ∧ InssOkI o nsmp (i + 1) xs
+
+instance (o : Opts) (nsmp : Nat) : (i : Nat) → (xs : List Ins) → Decidable (InssOkI o nsmp i xs)
+  | _, [] => isTrue trivial
+  | i, x :: xs => by
+    unfold InssOkI
+    have := instDecidableInssOkI o nsmp (i + 1) xs
+    infer_instance
+
+/-- sample `i` in instrument mode -/
+def SmpOkI (o : Opts) (i : Nat) (m : Smp) : Prop :=
+  NameOk 25 m.name ∧ SmpOk m ∧ o.smpVol i ≤ 64 ∧ (match o.smpPan i with | some p => p ≤ 64 | none => True)
+
+instance (o : Opts) (i : Nat) (m : Smp) : Decidable (SmpOkI o i m) := by
+  unfold SmpOkI
+  cases o.smpPan i <;> infer_instance
+
+def SmpsOkI (o : Opts) : Nat → List Smp → Prop
+  | _, [] => True
+  | i, m :: ms => SmpOkI o i m ∧ SmpsOkI o (i + 1) ms
+
+instance (o : Opts) : (i : Nat) → (ms : List Smp) → Decidable (SmpsOkI o i ms)
+  | _, [] => isTrue trivial
+  | i, m :: ms => by
+    unfold SmpsOkI
+    have := instDecidableSmpsOkI o (i + 1) ms
+    infer_instance
+
+def WellFormed (s : Module) (o : Opts) : Prop :=
+  NameOk 25 s.name ∧ S3m.startsValid s.pats.length s.orders = true ∧ (1 ≤ s.chn ∧ s.chn ≤ 64) ∧
+  s.orders.length ≤ 256 ∧
+  (1 ≤ s.pats.length ∧ s.pats.length ≤ 200) ∧ (∀ p ∈ s.pats, PatOk s.chn p) ∧
+  s.smps.length ≤ 99 ∧
+  -- sample mode: one instrument per sample; instrument mode: up to 99 instruments with key maps
+  (if o.insMode then s.ins.length ≤ 99 ∧ o.cmwt < 0x10000 ∧ InssOkI o s.smps.length 0 s.ins ∧ SmpsOkI o 0 s.smps
+   else SlotsOk 0 s.ins s.smps) ∧
+  (1 ≤ s.spd ∧ s.spd ≤ 255) ∧ (32 ≤ s.bpm ∧ s.bpm ≤ 255) ∧
+  o.gv.toNat ≤ 128 ∧ (match o.history with | some n => n < 65536 | none => True) ∧ o.midi < 4 ∧
+  -- the format's field widths: 16-bit packed-pattern length (worst case 7 bytes per cell), 32-bit file offsets
+  (∀ p ∈ s.pats, p.rows * (7 * s.chn + 1) ≤ 65535) ∧ (write s o).length < 0x100000000
+
+instance (s : Module) (o : Opts) : Decidable (WellFormed s o) := by
+  unfold WellFormed
+  cases o.history <;> infer_instance
 
 end Xmp.Fmt.It
